@@ -42,13 +42,13 @@ theorem done_after (h : PState ok j0 jo F0 s) (T1 : List Task) (hcons : Consiste
     rw [hpods] at hp
     unfold refNames; rw [htasks]; exact hrec p hp
   · intro c
-    have hlook : ∀ n, lookTask ({ w with clock := c } : Sys) n = lookTask s n := by
-      intro n; unfold lookTask; show (findPod w.pods n).bind podTask = _; rw [hpods]
+    have hlook : ∀ n, OptSim (lookTask s n) (lookTask ({ w with clock := c } : Sys) n) :=
+      fun n => lookTask_sim (s := s) (s' := ({ w with clock := c } : Sys)) hpods n
     have hgen := generate_stable s ({ w with clock := c } : Sys) s.clock jo.job.status.tasks T1 hc.nodupNames hcons
       (fun t ht => (hT1 t ht).final) hlook
-    have hfound : foundTasks w jo' =
+    have hfound : foundTasks ({ w with clock := c } : Sys) jo' =
         (generateTaskRefs s.clock jo.job.status.tasks T1).filterMap (fun r => lookTask ({ w with clock := c } : Sys) r.name) := by
-      unfold foundTasks; rw [htasks]; rfl
+      unfold foundTasks; rw [htasks]
     rw [hfound, hjo', hd]
     exact recompute_idem s.clock c s.d jo.job T1 _ hc.spec hgen
 
